@@ -5,8 +5,8 @@ CONSTANTS
   RootOf <- MC_RootOf
   Langs = {"en", "fi"}
   Codes = {"Nemeth", "UEB"}
-  MaxStack = 2
-  MaxVer = 3
+  MaxStack = 1
+  MaxVer = 2
   NewExprKeepsMarkers = FALSE
   RouteLeaksOverrideOnErr = FALSE
   SameDirKeepsTables = FALSE
